@@ -92,6 +92,38 @@ func checkSAMaps(tr interceptor.Translator, r root, msg proto.Message, mapReq, m
 	return []rec.Violation{violation("C14", "sa-key-wrong:"+r.String()+":"+normPath(p), fmt.Sprintf("%s: search-attribute container %s has key %q, expected %q", r, p, g, w), map[string]any{"kind": kind, "message": jsonOf(msg)})}
 }
 
+// checkSADirty: dirty = clean with invalid UTF-8 patched into a failure message inside a history blob. Judged only
+// when the translator succeeds and the repaired result has the same search-attribute containers as the clean twin
+// (errors and structural loss on the repair path are C17's business): the keys must then be those of the oracle.
+func checkSADirty(tr interceptor.Translator, r root, clean, dirty proto.Message, mapReq, mapResp map[string]string, counts map[string]int64, kind string) []rec.Violation {
+	mapping := mapReq
+	real := proto.Clone(dirty)
+	var err error
+	if r.isResp {
+		mapping = mapResp
+		_, err = tr.TranslateResponse(real)
+	} else {
+		_, err = tr.TranslateRequest(real)
+	}
+	if err != nil {
+		counts["sa_repaired_blob_translator_error_not_judged"]++
+		return nil
+	}
+	want := proto.Clone(clean)
+	gen.TranslateSearchAttributes(want, mapping)
+	got, w := gen.SASites(real), gen.SASites(want)
+	if sitePaths(got) != sitePaths(w) {
+		counts["sa_repaired_blob_shape_differs_not_judged"]++
+		return nil
+	}
+	counts["sa_repaired_blob_judged"]++
+	p, g, wv := firstDiff(sortedSites(got), sortedSites(w))
+	if p == "" {
+		return nil
+	}
+	return []rec.Violation{violation("C14", "sa-key-wrong-in-repaired-blob:"+r.String()+":"+normPath(p), fmt.Sprintf("%s: search-attribute container %s inside a history blob that needed UTF-8 repair has key %q, expected %q", r, p, g, wv), map[string]any{"kind": kind, "clean_twin": jsonOf(clean)})}
+}
+
 func TestSA(t *testing.T) {
 	out := rec.Default()
 	probe := fakes.NewProbe(1)
@@ -155,6 +187,14 @@ func TestSA(t *testing.T) {
 					counts["sa_blob_cases"]++
 					classes = append(classes, r.String()+":"+bp.String()+"<"+ep.String()+">")
 					viol = append(viol, checkSA(tr, r, msg, nil, "blob "+bp.String()+" event "+ep.String())...)
+					if ei%2 == 0 || rec.Thorough() { // the same batch next to an event whose failure message needs UTF-8 repair
+						clean, dirty := dirtyTwin([]*historypb.HistoryEvent{ev}, ei%4 == 0)
+						cm, dm := gen.New(r.md), gen.New(r.md)
+						putBlob(cm, bp, clean)
+						putBlob(dm, bp, dirty)
+						counts["sa_repaired_blob_cases"]++
+						viol = append(viol, checkSADirty(tr, r, cm, dm, saReq["nsid"], saResp["nsid"], counts, "blob "+bp.String()+" event "+ep.String()+" next to an event with invalid UTF-8 in its failure message")...)
+					}
 					if ei%2 == 0 { // the same with the overlapping mapping, keys inside the serialized event
 						cev := &historypb.HistoryEvent{EventId: 3}
 						ck := []string{"ChainA", "ChainB", "SwapX", "SwapY", "Unmapped1"}
